@@ -26,7 +26,7 @@ def run(ck):
     ck.evaluations += s["records"]
     ck.distinct += s["records"]
     ck.extra["accepted_texts"] = s["accepted"]
-    j = props.judge(ck, "Trace_Rel", out, timeout=5400)
+    j = props.judge(ck, "Trace_Rel", out, timeout=5400, chunk=40000)
     ck.traces += j.judged
     if j.rejects:
         recs = read_ndjson(out)
